@@ -1,0 +1,21 @@
+//go:build verif
+
+package packetmap
+
+import "fmt"
+
+// VerifDump returns the complete state of the map, for the correspondence
+// check against the Coq model (Model/PacketMap.v).
+func (m *Map) VerifDump() string {
+	m.mu.Lock()
+	defer m.mu.Unlock()
+	s := fmt.Sprintf("%v %d %d %d %d %d", m.started, m.next, m.nextPid,
+		m.delta, m.pidDelta, m.lastEntry)
+	if m.entries == nil {
+		return s + " nil"
+	}
+	for _, e := range m.entries {
+		s += fmt.Sprintf(" %d:%d:%d:%d", e.first, e.count, e.delta, e.pidDelta)
+	}
+	return s
+}
